@@ -369,10 +369,14 @@ def colliding_optionals(G):
     non-empty symbol sequence -- the documented "Rules defined twice ... colliding expansion of
     optionals" case.  Aliases do not distinguish alternatives (`A | A -> x` is a duplicate)."""
     found = [False]
-    templates = {r['name'] for r in G['rules'] if r.get('params')}
+    by_pat = {}
+    for t in G.get('terms', []):
+        by_pat.setdefault(tuple(t['pat']), t['name'])
 
     def seqs_item(it):
         k = it[0]
+        if k in ('s', 'x') and tuple(it) in by_pat:      # literal that *is* a named terminal
+            it = ['t', by_pat[tuple(it)]]
         if k in ('r', 't', 's', 'x', 'p'):
             return [(json.dumps(it),)]
         if k == 'c':
